@@ -134,6 +134,23 @@ def run_grid(case):
         except BaseException as e:
             bad("roundtrip:exception", repr(e), sg)
             continue
+        # the alternative grid module ladim.ROMS2 (whole grid only) shares the sampler and the inverse interpolation: same conversions
+        if sg is None and not wide:
+            try:
+                from ladim.ROMS2 import Grid as Grid2
+
+                g2 = Grid2(f)
+                lo_b, la_b = g2.xy2ll(X, Y)
+                X_b, Y_b = g2.ll2xy(lo, la)
+                n += len(X)
+                if np.abs(np.asarray(lo_b) - lo).max() > 1e-9 or np.abs(np.asarray(la_b) - la).max() > 1e-9:
+                    bad("xy2ll:ROMS2", "ladim.ROMS2.Grid.xy2ll differs from ladim.ROMS.Grid.xy2ll on the same grid file", sg)
+                errb = np.hypot(np.asarray(X_b) - X, np.asarray(Y_b) - Y)
+                if not (errb < 0.05).all():
+                    kb = int(np.argmax(errb))
+                    bad("roundtrip:ROMS2", f"ladim.ROMS2.Grid.ll2xy: position ({X[kb]},{Y[kb]}) comes back as ({np.asarray(X_b)[kb]},{np.asarray(Y_b)[kb]})", sg)
+            except BaseException as e:
+                bad("roundtrip:exception", f"ladim.ROMS2: {e!r}", sg)
         # one very large conversion (a release file with a quarter of a million rows): every row must be converted
         if sg is None and case["size"] == [12, 10] and case["res"] == RES[0]:
             try:
@@ -330,6 +347,30 @@ def run_sampler(case):
                 break
             if abs(g - e) > 1e-12:
                 bad("sampler:not-exact-on-bilinear", f"4x5 bilinear field at ({x},{y}): {g} expected {e}", None)
+    # fields of other dtypes (bytes, packed 16-bit integers, single precision): the sampled value is the bilinear combination of the corner VALUES,
+    # whatever the storage type - differences of neighbouring corners do not fit into the unsigned / 16-bit types used here
+    if case["block"] == 0:
+        for dt_, vals in (("uint8", [250, 3, 200, 40, 255]), ("uint16", [65000, 10, 40000, 200, 65535]), ("int16", [30000, -30000, 25000, -32000, 32767]),
+                          ("int32", [2000000000, -2000000000, 5, -7, 2147483647]), ("float32", [1.5, -2.25, 1e6, -1e6, 0.125]), ("int64", [2 ** 40, -(2 ** 40), 7, 2 ** 53 + 2, 0])):
+            F = np.array([[vals[(i + 2 * j) % 5] for i in range(5)] for j in range(4)], dtype=dt_)
+            Ff = F.astype(float)
+            F_before = F.copy()
+            for x in np.arange(0, 3.99, 0.25):
+                for y in np.arange(0, 2.99, 0.25):
+                    n += 1
+                    i0, j0 = int(x), int(y)
+                    p_, q_ = x - i0, y - j0
+                    e = (1 - p_) * (1 - q_) * Ff[j0, i0] + p_ * (1 - q_) * Ff[j0, i0 + 1] + (1 - p_) * q_ * Ff[j0 + 1, i0] + p_ * q_ * Ff[j0 + 1, i0 + 1]
+                    try:
+                        g = float(sample2D(F, np.array([x]), np.array([y]))[0])
+                    except Exception as ex:
+                        bad("sampler:exception", f"{dt_} field at ({x},{y}): {ex!r}", None)
+                        break
+                    if abs(g - e) > (1e-6 if dt_ == "float32" else 1e-12) * max(1.0, float(np.abs(Ff).max())):
+                        bad("sampler:value:dtype", f"{dt_} field at ({x},{y}): {g} expected {e} (corners {Ff[j0:j0 + 2, i0:i0 + 2].tolist()})", None)
+                        break
+            if not np.array_equal(F, F_before):
+                bad("sampler:modifies-input", f"{dt_} field changed by sample2D", None)
     return util.result(evals=n, nontrivial=nt, viol=viols, outcomes=sorted(outcomes), states=n, transitions=n,
                        sample=dict(case, masks=f"{case['block'] * 32}..{case['block'] * 32 + 31}", positions=len(XY)))
 
